@@ -260,7 +260,7 @@ def fill_search_fallback(prog, rep, rule="R06.6"):
     except Exception as e:
         rep.fail(rule, "rounded_rectangle:fill-fallback", "anchor lost: %s" % e, status="undecided")
         return
-    bad = []
+    bad, underived = [], []
     n_nohit = n_hit = 0
     try:
         summs = Paths(prog, loops="once", limit=6000).of(nx)
@@ -286,6 +286,20 @@ def fill_search_fallback(prog, rep, rule="R06.6"):
         vo = variant_of(fill)
         if vo is None:
             continue
+        if vo[1] == "Some" and fill[2] and fill[2][0][0] == "agg" and str(fill[2][0][1]).endswith("Range") and len(fill[2][0][2]) == 2:
+            # where does a non-empty fill range come from?  Its first column must be a column of the stroke scanline
+            # that the search found inside the fill area (the membership test pixels() uses), not a value computed
+            # some other way (whole columns of the fill box, a cached range, ...)
+            st_ = fill[2][0][2][0]
+            inner = st_[1] if st_[0] == "payload" else None
+            if inner is not None and is_continues(inner):
+                inner = inner[3][0]
+            searched = inner is not None and inner[0] == "call" and inner[1].split("::")[-1] in ("next", "find", "position")
+            tested = any(n[0] == "call" and n[1].endswith("RoundedRectangleContains::contains") for fct in sm.facts for x in fct[1:] if isinstance(x, tuple) for n in walk(x))
+            if fill[2][0][2][0] != fill[2][0][2][1] and not (searched and tested):
+                underived.append(show(st_, maxd=4))
+        elif vo[1] == "Some" and fill[2]:
+            underived.append(show(fill[2][0], maxd=4))   # a range that is not assembled from the search results at all
         if nohit:
             n_nohit += 1
             empty = vo[1] == "None" or (vo[1] == "Some" and fill[2][0][0] == "agg" and str(fill[2][0][1]).endswith("Range") and fill[2][0][2][0] == fill[2][0][2][1])
@@ -295,3 +309,6 @@ def fill_search_fallback(prog, rep, rule="R06.6"):
             n_hit += 1
     rep.check(not bad and n_nohit >= 1 and n_hit >= 1, rule, "rounded_rectangle:fill-fallback",
               "a row of the fill area without a contained column must carry no fill: %s" % ("; ".join(sorted(set(bad))[:2]) or "paths without/with hit: %d/%d" % (n_nohit, n_hit)), at=nx.span, fn=nx.path)
+    rep.check(not underived, rule, "rounded_rectangle:fill-from-search",
+              "the fill range of a styled scanline must start at a column found by searching the stroke scanline with fill_area.contains() (the test pixels() applies per point); found a range starting at %s" % "; ".join(sorted(set(underived))[:2]),
+              status="undecided", at=nx.span, fn=nx.path)
